@@ -408,6 +408,114 @@ theorem prepare_covers (c : Chain) (t : Nat) (bt : Batch) (mb : Int) (q : Query)
         rw [hb] at this
         exact ⟨_, this⟩
 
+/-! ### the requested filter is recognised by its block hash -/
+
+theorem handle_found_target (hs : Hashing) (qs : Query × Store) (r : Resp) (x : Resp)
+    (h : (handle hs qs r).1.1.found = some x) :
+    qs.1.found = some x ∨ (x.blk = qs.1.target ∧ lookup qs.1.index qs.1.target ≠ none) := by
+  cases hv : verify hs qs.1 r with
+  | none => rw [handle_reject hs qs r hv] at h; exact Or.inl h
+  | some i =>
+    rw [handle_accept hs qs r i hv] at h
+    simp only [accept] at h
+    split at h
+    · rename_i heq
+      simp only [Option.some.injEq] at h
+      subst h
+      refine Or.inr ⟨heq, ?_⟩
+      obtain ⟨_, _, _, hmem, _⟩ := verify_some hv
+      rw [← heq]
+      intro hnone
+      unfold verify at hv
+      simp [hnone] at hv
+    · exact Or.inl h
+
+theorem handle_target (hs : Hashing) (qs : Query × Store) (r : Resp) :
+    (handle hs qs r).1.1.target = qs.1.target := by
+  cases hv : verify hs qs.1 r with
+  | none => rw [handle_reject hs qs r hv]
+  | some i => rw [handle_accept hs qs r i hv]; rfl
+
+/-- whatever the stream, `targetFilter` is only ever set by a response naming the
+requested hash, and only if that hash was among the awaited blocks -/
+theorem feed_found_target (hs : Hashing) (cont : Bool) (rs : List Resp) : ∀ (qs : Query × Store) (x : Resp),
+    (feed hs cont qs rs).1.1.found = some x →
+    qs.1.found = some x ∨ (x.blk = qs.1.target ∧ ∃ rs' : List Resp, ∃ qs' : Query × Store,
+      qs'.1.target = qs.1.target ∧ (∀ p ∈ qs'.1.index, p ∈ qs.1.index) ∧ lookup qs'.1.index qs.1.target ≠ none) := by
+  induction rs with
+  | nil => intro qs x h; exact Or.inl h
+  | cons a rs ih =>
+    intro qs x h
+    simp only [feed] at h
+    have step : (handle hs qs a).1.1.found = some x →
+        qs.1.found = some x ∨ (x.blk = qs.1.target ∧ ∃ rs' : List Resp, ∃ qs' : Query × Store,
+          qs'.1.target = qs.1.target ∧ (∀ p ∈ qs'.1.index, p ∈ qs.1.index) ∧ lookup qs'.1.index qs.1.target ≠ none) := by
+      intro h1
+      rcases handle_found_target hs qs a x h1 with h2 | h2
+      · exact Or.inl h2
+      · exact Or.inr ⟨h2.1, [], qs, rfl, fun p hp => hp, h2.2⟩
+    split at h
+    · exact step h
+    · rcases ih _ x h with h1 | ⟨hb, rs', qs', ht, hsub, hl⟩
+      · exact step h1
+      · rw [handle_target] at hb ht hl
+        exact Or.inr ⟨hb, rs', qs', ht, fun p hp => handle_index_sub hs qs a p (hsub p hp), hl⟩
+
+theorem lookup_some_mem_key {l : List (Nat × Nat)} {k : Nat} (h : lookup l k ≠ none) : ∃ i, (k, i) ∈ l := by
+  cases hl : lookup l k with
+  | none => exact absurd hl h
+  | some i => exact ⟨i, lookup_mem hl⟩
+
+/-- a query whose index does not await the requested hash never finds the requested filter -/
+theorem feed_target_not_awaited (hs : Hashing) (cont : Bool) (rs : List Resp) (qs : Query × Store)
+    (hnone : qs.1.found = none) (hna : ∀ i, (qs.1.target, i) ∉ qs.1.index) :
+    (feed hs cont qs rs).1.1.found = none := by
+  cases hf : (feed hs cont qs rs).1.1.found with
+  | none => rfl
+  | some x =>
+    exfalso
+    rcases feed_found_target hs cont rs qs x hf with h | ⟨_, _, qs', _, hsub, hl⟩
+    · rw [hnone] at h; cases h
+    · obtain ⟨i, hi⟩ := lookup_some_mem_key hl
+      exact hna i (hsub _ hi)
+
+/-- after a reorganisation between the lookups the index names the blocks of the
+new chain: the requested hash is awaited only if it is the same block on both -/
+theorem prepareReorg_index (c : Chain) (rg : Reorg) (t : Nat) (bt : Batch) (mb : Int) (q : Query)
+    (htip : c.tip < altBase) (h : prepareReorg c rg t bt mb = .ok q) :
+    q.target = t ∧ q.found = none ∧ (rg.fork < t → ∀ i, (t, i) ∉ q.index) := by
+  unfold prepareReorg at h
+  split at h
+  · cases h
+  · rename_i ht
+    cases hp : prepare rg.chain t bt mb with
+    | error e => simp [hp] at h
+    | ok q0 =>
+      simp only [hp, Except.ok.injEq] at h
+      subst h
+      have h0 : q0.target = t ∧ q0.found = none := by
+        unfold prepare at hp
+        split at hp
+        · cases hp
+        · split at hp
+          · cases hp
+          · simp only at hp
+            split at hp
+            · cases hp
+            · simp only [Except.ok.injEq] at hp
+              subst hp
+              exact ⟨rfl, rfl⟩
+      refine ⟨h0.1, h0.2, fun hfork i hmem => ?_⟩
+      simp only [List.mem_map] at hmem
+      obtain ⟨p, _, hp2⟩ := hmem
+      have hid : rg.idAt p.1 = t := by
+        have := congrArg Prod.fst hp2
+        simpa using this
+      unfold Reorg.idAt at hid
+      split at hid
+      · unfold altBase at htip hid; omega
+      · omega
+
 /-! ### GetCFilter by cases -/
 
 /-- the branch after both lookups missed -/
